@@ -1,2 +1,10 @@
+-- Root of the `Rfsm` library: models, helper lemmas, property theorems.
 import Rfsm.Model.Wire
 import Rfsm.Model.Descriptor
+import Rfsm.Model.Interp
+import Rfsm.Model.Exec
+import Rfsm.Model.Vdm
+import Rfsm.Model.Legal
+import Rfsm.Audit
+import Rfsm.Proofs.DescriptorLemmas
+import Rfsm.Props.C19
